@@ -1,3 +1,36 @@
-(* Model/SiteRun.v -- the site model instantiated with the listing skeleton regenerated from /repo. *)
-From PydoctorVerif Require Import Base.Sexp Model.SiteTable Model.Site Gen.Listings.
-Definition run (s : sexp) : sexp := run_with table_now s.
+(* Model/SiteRun.v -- the site model instantiated with the listing skeleton regenerated from /repo, plus the
+   interpretation (Model/SiteIR.v) of the function bodies translated from /repo (Gen/SiteCode.v): a further leg of the
+   correspondence check. *)
+From Coq Require Import ZArith List Arith.
+From PydoctorVerif Require Import Base.Sexp Model.SiteTable Model.Site Gen.Listings Model.SiteIR Gen.SiteCode.
+Import ListNotations.
+
+Definition enc_result (x : result) : sexp :=
+  match x with
+  | Val (VStr t) => L [A 0%Z; of_text t]
+  | Val (VBool b) => L [A 1%Z; of_bool b]
+  | Val (VTag _ (Some h) _) => L [A 2%Z; of_text h]
+  | Val (VTag _ None _) => L [A 3%Z]
+  | Val _ => L [A 4%Z]
+  | Err => L [A 5%Z]
+  | OutOfFuel => L [A 6%Z]
+  end.
+
+(* per object: url, isVisible, isPrivate, taglink(o, <own page url>) and taglink(o, 'nameIndex.html') by the GENERATED code *)
+Definition code_view (r : registry) : sexp :=
+  let fuel := length (r_objs r) + 10 in
+  let go f i := run_fn cquote site_code r fuel f i env0 in
+  of_list (fun i =>
+             let pg := match page_obj r i with Some p => url cquote r p | None => [] end in
+             L [ enc_result (go FUrl i); enc_result (go FIsVisible i); enc_result (go FIsPrivate i);
+                 enc_result (run_fn cquote site_code r fuel FTaglink i (taglink_args pg VNone));
+                 enc_result (run_fn cquote site_code r fuel FTaglink i (taglink_args f_nameIndex VNone));
+                 of_option of_text (taglink cquote table_now r i pg);
+                 of_option of_text (taglink cquote table_now r i f_nameIndex) ])
+          (seq 0 (length (r_objs r))).
+
+Definition run (s : sexp) : sexp :=
+  match run_with table_now s with
+  | L l => L (l ++ [code_view (dec_registry (nth_s 0 s))])
+  | x => x
+  end.
